@@ -7,7 +7,7 @@ META = {
     "level": "model_checking",
     "technique": "TLA+ spec of the freezer at file-system-call granularity with durable/volatile file contents (Freezer.tla) model-checked with TLC over all crash points; real rawdb.Freezer histories with fsync positions from a hook, enumerated crash images reopened in child processes, all validated against FreezerTrace.tla",
     "text": "Freezer.tla compiles every public call (append batches with file rolls, sync, head/tail truncation, reset) and the whole open/repair procedure (checkIndex, repairIndex, the index/data slip loop, cross-table alignment) into the sequence of write/truncate/fsync/rename/unlink calls of freezer_table.go, executes it one call at a time on files with a durable and a volatile content, and lets a crash keep per file any length between the two (written or zero-filled, metadata old or new). TLC checks on bounded histories, for every crash point including crashes during repair, that reopening succeeds, all tables share one range, every readable item is the one appended at that position and everything covered by a completed sync and not truncated since is present. Binding: seeded histories run on a real freezer (64-byte data files, one compressed and one raw table, two tail-group layouts); the rawdb fsync hook gives the durable content of every file; at every fsync (just before it takes effect) and at every call end crash images are materialised and reopened by the real NewFreezer in a child process; FreezerTrace.tla follows the observed fsyncs through the spec's programs (an unexpected or a missing fsync rejects), compares real durable/current file lengths with the model's, recomputes crash+repair for every image and demands the same observable result (Ancients, Tail, every item) and the three clauses of C24.",
-    "note": "File-system model as stated by the property: per-file prefix durability, zero-filled extensions, metadata file old-or-new (torn metadata writes are not modelled), create/unlink/rename durable at once. Histories are single-writer; appended blobs are 6..30 bytes and never exceed the file size limit. Two ways the pinned code refuses to reopen after a crash are modelled as what the code does (Freezer!KnownF1: virtualTail > items after an unsynced TruncateTail; KnownF2: a non-prunable table emptied beside a non-empty one is fast-forwarded and repair panics); an image that fails to open is accepted only if the specification computes exactly such a failure for it, and is reported as PENDING-FINDING C24-F1/F2 (spec/store/NOTES.md); directed histories reproduce both on every run. Trusts TLC, the hook positions and the projection in harness/cmd/c24.",
+    "note": "File-system model as stated by the property: per-file prefix durability, zero-filled extensions, metadata file old-or-new, or - when its encoding grew - the new bytes at the old length, create/unlink/rename durable at once. Histories are single-writer; appended blobs are 6..30 bytes and never exceed the file size limit. Three ways the pinned code refuses to reopen after a crash are modelled as what the code does (Freezer!KnownF1: virtualTail above the surviving head after an unsynced TruncateTail; KnownF2: a non-prunable table emptied beside a non-empty one is fast-forwarded and repair panics; KnownF3: torn metadata rewrite); an image that fails to open is accepted only if the specification computes exactly such a failure for it, and is reported as PENDING-FINDING C24-F1/F2/F3 (spec/store/NOTES.md); directed histories reproduce both on every run. Trusts TLC, the hook positions and the projection in harness/cmd/c24.",
     "design_ref": "3.4 C24",
 }
 
@@ -37,6 +37,7 @@ FINDINGS = {
     # TODO-KNOWN-FINDING: exact fingerprints are FreezerTrace!KnownFailure / Freezer!KnownF1, KnownF2
     "C24-F1": "TruncateTail above the flushed head + crash leaves virtualTail > items: NewFreezer fails (EOF)",
     "C24-F2": "a non-prunable table left with 0 items beside a non-empty one (first SyncAncient or TruncateHead(0) interrupted): NewFreezer panics on its non-zero tail",
+    "C24-F3": "metadata rewrite whose RLP encoding grows by a byte, crash keeps the new bytes at the old length: undecodable metadata, NewFreezer fails",
 }
 
 
@@ -90,10 +91,11 @@ def run(ctx):
             ctx.reject_trace("store/FreezerTrace", tp, consumed, r, cfg=tcfg,
                              desc="[%s] freezer trace rejected at event %d%s" % (cfg, consumed + 1,
                                   (": specification computes " + json.dumps(why[0])[:600]) if why else ""))
-    # directed histories that reproduce the two pending findings on every run (accepted only through the
+    # directed histories that reproduce the three pending findings on every run (accepted only through the
     # KnownFailure disjunct of the trace specification; anything else about them is still checked)
     for name, cfg, tcfg, script in (("F1", "g2", "store/FreezerTraceG2", "a2,t1"),
-                                    ("F2", "mixed", "store/FreezerTraceMixed", "a3,s,h0")):
+                                    ("F2", "mixed", "store/FreezerTraceMixed", "a3,s,h0"),
+                                    ("F3", "g2", "store/FreezerTraceG2", "a4,a4,a4,a4,a4,a4,s")):
         tp = os.path.join(ctx.scratch, "trace-%s.ndjson" % name)
         ctx.drive(drv, ["-mode", "xf", "-cfg", cfg, "-script", script, "-images", 12, "-n", 1, "-trace", tp,
                         "-dir", os.path.join(ctx.scratch, "fz-" + name)], name="c24-finding-" + name, timeout=T)
@@ -108,23 +110,12 @@ def run(ctx):
                                   (": specification computes " + json.dumps(why[0])[:600]) if why else ""))
         elif seen.get("C24-" + name, 0) == before.get("C24-" + name, 0):
             ctx.notes.append("C24-%s not reproduced by the directed history %s" % (name, script))
-    # TODO-KNOWN-FINDING (C24-F3, experiment outside the specification): the metadata file is modelled as old-or-new;
-    # the property's file model also allows the new bytes at the old length when the RLP encoding grows by a byte
-    # (flushOffset >= 128 bytes from the 22nd item on).  Such an image does not open ("failed to decode metadata").
-    s3, _ = ctx.drive(drv, ["-mode", "xf", "-cfg", "g2", "-torn-meta", "-script", "a4,a4,a4,a4,a4,a4,s", "-images", 1, "-n", 1,
-                            "-trace", os.path.join(ctx.scratch, "trace-F3.ndjson"), "-dir", os.path.join(ctx.scratch, "fz-F3")],
-                      name="c24-experiment-torn-metadata", timeout=T)
-    torn, torn_failed = s3.get("counts", {}).get("torn-meta", 0), s3.get("counts", {}).get("torn-meta-open-failed", 0)
-    if torn_failed:
-        line = "PENDING-FINDING: property=C24 C24-F3 a crash between the in-place metadata rewrite and its fsync that keeps the new bytes at the old length leaves an undecodable metadata file: NewFreezer fails (%d of %d torn images; metadata is old-or-new in the specification)" % (torn_failed, torn)
-        print(line)
-        ctx.notes.append(line)
     for f in sorted(seen):
         line = "PENDING-FINDING: property=C24 %s %s (%d crash images)" % (f, FINDINGS.get(f, ""), seen[f])
         print(line)
         ctx.notes.append(line)
     return ctx.finish(rule="MC: all histories within the cfg bounds with a crash at any file-system call (also inside repair); XF: seeded histories x crash points x sampled per-file cuts on the real freezer",
-                      assumptions=["per-file prefix durability with zero-filled extensions; metadata file old or new",
+                      assumptions=["per-file prefix durability with zero-filled extensions; metadata file old, new, or new bytes at the old length",
                                    "create/unlink/rename/directory operations durable at once",
                                    "single writer; item blobs smaller than the data-file size limit",
-                                   "two known reopen failures (C24-F1, C24-F2) are accepted only when the specification computes exactly that failure for the image; reported as pending findings"])
+                                   "three known reopen failures (C24-F1, C24-F2, C24-F3) are accepted only when the specification computes exactly that failure for the image; reported as pending findings"])
